@@ -12,12 +12,14 @@ from fv.drivers import c03
 from fv.report import Report
 
 NAMES = ["a", "b", "c", "d", "e", "f", "g", "h", "i", "j", "k", "l"]
+# level values need not be strings: integers, with 0 (a value that is false in Python) not in first place
+NAMESETS = {"str": NAMES, "int": [-1, 0, 1, 2, 3, 4, 5, 6, 7, 8, 9, 10]}
 
 
-def real_matrices(n, pos):
+def real_matrices(n, pos, kind="str"):
     from formulae.categorical import Sum, Treatment
 
-    levels = NAMES[:n]
+    levels = NAMESETS[kind][:n]
     out = {}
     for key, obj, meth in (
         ("tr", Treatment(levels[pos - 1]), "code_without_intercept"),
@@ -26,7 +28,7 @@ def real_matrices(n, pos):
         ("sf", Sum(levels[pos - 1]), "code_with_intercept"),
     ):
         cm = getattr(obj, meth)(list(levels))
-        labels = [0 if l == "mean" else levels.index(l) + 1 for l in cm.labels]
+        labels = [0 if l == "mean" else [str(x) for x in levels].index(l) + 1 for l in cm.labels]
         out[key] = {"m": design.to_int_matrix(cm.matrix) if cm.matrix.shape[1] else [[] for _ in range(n)], "labels": labels}
     # defaults: reference = first level, omitted = last level
     out["default_ok"] = True
@@ -54,13 +56,14 @@ def spec_vs_code(rep, maxn):
             table[(c["n"], c["pos"])] = c
             rep.cov["evaluations"] += 1
             rep.nontrivial_key(f"S:{c['n']}:{c['pos']}")
-            real = real_matrices(c["n"], c["pos"])
-            for key in ("tr", "tf", "sr", "sf"):
-                want_m = [list(r) for r in c[key]["m"]]
-                if real[key]["m"] != want_m or real[key]["labels"] != list(c[key]["labels"]):
-                    rep.violation({"clause": "contrast_matrix_differs_from_spec", "coding": key, "site": "formulae.categorical"}, {"n": c["n"], "pos": c["pos"], "got": real[key], "want": c[key]})
-            if not real["default_ok"]:
-                rep.violation({"clause": "default_reference_or_omitted_level", "site": "formulae.categorical"}, {"n": c["n"], "pos": c["pos"]})
+            for kind in NAMESETS:
+                real = real_matrices(c["n"], c["pos"], kind)
+                for key in ("tr", "tf", "sr", "sf"):
+                    want_m = [list(r) for r in c[key]["m"]]
+                    if real[key]["m"] != want_m or real[key]["labels"] != list(c[key]["labels"]):
+                        rep.violation({"clause": "contrast_matrix_differs_from_spec", "coding": key, "site": "formulae.categorical"}, {"n": c["n"], "pos": c["pos"], "level_values": kind, "got": real[key], "want": c[key]})
+                if not real["default_ok"]:
+                    rep.violation({"clause": "default_reference_or_omitted_level", "site": "formulae.categorical"}, {"n": c["n"], "pos": c["pos"], "level_values": kind})
         c0 = table.get((3, 2))
         if c0:
             rep.sample({"kind": "S->C coding case", "n": 3, "reference_or_omitted": 2, "treatment_reduced": c0["tr"], "sum_reduced": c0["sr"]})
@@ -98,10 +101,10 @@ def judge_real(rep, maxn):
 
 def _options_case(args):
     """C/T/S with levels= (a permutation), reference / omitted level, with and without intercept."""
-    perm, pos, seed, table = args
+    perm, pos, seed, table, kind = args
     n = len(perm)
     rng = random.Random(seed + hash(perm) + pos)
-    lv = [NAMES[p] for p in perm]  # the order given through levels=
+    lv = [NAMESETS[kind][p] for p in perm]  # the order given through levels=
     vals = [rng.choice(lv) for _ in range(3 * n)] + lv
     rng.shuffle(vals)
     df = pd.DataFrame({"v": vals, "y": range(len(vals))})
@@ -116,15 +119,16 @@ def _options_case(args):
             own = own[::-1]
         df["v"] = pd.Categorical(vals, categories=own, ordered=True)
     ref = lv[pos - 1]
+    q = repr(ref)  # how the reference is written in the formula: 'a' / 0
     spec = table[(n, pos)]
     spec_first = table[(n, 1)]
     spec_last = table[(n, n)]
     forms = [
-        (f"C(v, Treatment('{ref}'), levels=LV)", "tr", "tf", spec),
-        (f"T(v, '{ref}', LV)", "tr", "tf", spec),
-        (f"T(v, ref='{ref}', levels=LV)", "tr", "tf", spec),
-        (f"C(v, Sum('{ref}'), levels=LV)", "sr", "sf", spec),
-        (f"S(v, '{ref}', LV)", "sr", "sf", spec),
+        (f"C(v, Treatment({q}), levels=LV)", "tr", "tf", spec),
+        (f"T(v, {q}, LV)", "tr", "tf", spec),
+        (f"T(v, ref={q}, levels=LV)", "tr", "tf", spec),
+        (f"C(v, Sum({q}), levels=LV)", "sr", "sf", spec),
+        (f"S(v, {q}, LV)", "sr", "sf", spec),
         ("C(v, levels=LV)", "tr", "tf", spec_first),  # first level is the default reference
         ("C(v, Treatment, levels=LV)", "tr", "tf", spec_first),
         ("T(v, levels=LV)", "tr", "tf", spec_first),
@@ -159,11 +163,12 @@ def options(rep, table, maxn, seed):
     for n in range(2, maxn + 1):
         for perm in itertools.permutations(range(n)):
             for pos in range(1, n + 1):
-                jobs.append((perm, pos, seed, table))
+                for kind in NAMESETS:
+                    jobs.append((perm, pos, seed, table, kind))
     results = common.pool_map(_options_case, jobs)
-    for (perm, pos, _, _), (probs, k) in zip(jobs, results):
+    for (perm, pos, _, _, kind), (probs, k) in zip(jobs, results):
         rep.cov["evaluations"] += k
-        rep.nontrivial_key(f"O:{perm}:{pos}")
+        rep.nontrivial_key(f"O:{perm}:{pos}:{kind}")
         for sig, case in probs:
             rep.violation(dict(sig, site="C/T/S"), case)
     rep.count("option_cases", len(jobs))
@@ -176,7 +181,7 @@ def main(tier, seed):
         "S->C: Coding_MC: every number of levels n <= 8 (quick) / 12 (thorough) x every reference / omitted level: the spec's "
         "matrices must be valid (exact ranks in TLA+) and the real Treatment/Sum matrices must equal them; C->S: the real matrices for "
         "n <= 12 judged by Coding_Trace; options: every permutation of <= 4 (quick) / 5 (thorough) levels passed as levels= x every "
-        "reference x 10 spellings of C/T/S x with/without intercept compared with the spec's matrix rows and level labels; "
+        "reference x string and integer level values (incl. 0) x 10 spellings of C/T/S x with/without intercept compared with the spec's matrix rows and level labels; "
         "interchangeability: C03's exact-rank replay with each factor coded as variable / C / T(ref) / S / Sum. "
         "Non-trivial = distinct (n, position), (permutation, reference) and family cases."
     )
